@@ -31,7 +31,7 @@ from hypothesis import strategies as st
 
 from .. import strategies as S
 from ..common import permuted
-from ..engine import Clause, Violation, require
+from ..engine import Clause, require
 
 ASSUMPTIONS = [
     "oracle = the definitions evaluated by exhaustive enumeration of all hyperedges of size "
@@ -188,7 +188,6 @@ def check_poisson_params(case, ctx):
     P = pair_table(case["u"], case["w"])
     M = magnitude(case["u"], case["w"])
     hyes = permuted(all_hyperedges(N, D), case["perm"])   # column order is arbitrary
-    expected = [lam(e, P) for e in hyes]
     dense = np.zeros((N, len(hyes)))
     for j, e in enumerate(hyes):
         for i in e:
@@ -197,15 +196,23 @@ def check_poisson_params(case, ctx):
     require(coo.shape == dense.shape and (coo.toarray() == dense).all(),
             lambda: "hye_list_to_binary_incidence(%r) is not the 0/1 incidence matrix" % (hyes,),
             key="incidence")
-    variants = [("dense float", dense), ("dense uint8", dense.astype(np.uint8)),
-                ("sparse coo", coo), ("sparse csr", coo.tocsr()),
-                ("sparse csc float", sparse.csc_array(dense))]
-    for name, B in variants:
+    variants = [("dense float", dense, hyes), ("dense uint8", dense.astype(np.uint8), hyes),
+                ("sparse coo", coo, hyes), ("sparse csr", coo.tocsr(), hyes),
+                ("sparse csc float", sparse.csc_array(dense), hyes)]
+    # the same for a single hyperedge and for a drawn sub-list (matrices with 1 / few columns)
+    n_sub = 1 + case["perm"] % min(len(hyes), 6)
+    for sub in (hyes[:1], hyes[-n_sub:]):
+        sub_coo = hye_list_to_binary_incidence(sub, shape=(N, len(sub)))
+        variants += [("sparse coo, %d column(s)" % len(sub), sub_coo, sub),
+                     ("sparse csr, %d column(s)" % len(sub), sub_coo.tocsr(), sub),
+                     ("dense, %d column(s)" % len(sub), sub_coo.toarray().astype(float), sub)]
+    for name, B, cols in variants:
         got = model.poisson_params(B)
-        require(np.shape(got) == (len(hyes),),
+        require(np.shape(got) == (len(cols),),
                 lambda: "poisson_params(%s) has shape %r for %d hyperedges"
-                % (name, np.shape(got), len(hyes)), key="shape")
-        for e, x, o in zip(hyes, expected, np.asarray(got).tolist()):
+                % (name, np.shape(got), len(cols)), key="shape")
+        for e, o in zip(cols, np.asarray(got).tolist()):
+            x = lam(e, P)
             require(close(o, x, M),
                     lambda: "poisson_params(%s incidence) of hyperedge %r: definition "
                     "sum_{i<j} u_i^T w u_j = %r, got %r (u=%r, w=%r)"
